@@ -153,16 +153,20 @@ def run(ck, facts, tier):
 
     # ---------------- R11.4 sorted before use
     r4 = ck.rule("R11.4", "CurveDF::try_new: a key-sort of the node map lies on every path to the return (supply order cannot matter); sort_keys sorts the payload "
-                          "of each variant on every path; CurveDF { .. } is constructed nowhere else", floor=6)
+                          "of each variant on every path; every other CurveDF { .. } literal is the derived Clone or is itself dominated by a sort — the loader included", floor=6)
     P = cfgmod.Program(facts)
+
+    def sort_dominates(c):
+        sorts = [i for i, t in c.calls() if (c.callee_name(t) or "").endswith("NodesTimestamp::sort_keys")]
+        aggr = [i for i, b in enumerate(c.blocks) for s in b["stmts"] if s.get("adt", "").endswith("curve::CurveDF")]
+        reach = c.reachable_from(0, avoid=sorts)
+        return bool(sorts) and bool(aggr) and not any(a in reach for a in aggr), sorts
     c = P.cfgs.get("curves::curve::CurveDF::<T, U>::try_new")
     if c is None:
         ck.fail(r4, "try_new", "CurveDF::try_new not found")
     else:
-        sorts = [i for i, t in c.calls() if (c.callee_name(t) or "").endswith("NodesTimestamp::sort_keys")]
-        aggr = [i for i, b in enumerate(c.blocks) for s in b["stmts"] if s.get("adt", "").endswith("curve::CurveDF")]
-        reach = c.reachable_from(0, avoid=sorts)
-        ck.check(r4, "try_new:sort-dominates-construction", bool(sorts) and bool(aggr) and not any(a in reach for a in aggr),
+        okd, sorts = sort_dominates(c)
+        ck.check(r4, "try_new:sort-dominates-construction", okd,
                  "CurveDF can be constructed without sorting its nodes (a path to the struct literal avoids sort_keys)", "%s:%d" % (c.rec["file"], c.rec["line"]),
                  sample="sort_keys call in block %s precedes the only CurveDF aggregate" % sorts)
     sk = P.cfgs.get("curves::nodes::NodesTimestamp::sort_keys")
@@ -177,11 +181,25 @@ def run(ck, facts, tier):
         ck.check(r4, "sort_keys:unconditional", bool(rets) and not any(b in reach for b in rets),
                  "sort_keys can return without sorting (a path from entry to the return avoids every IndexMap::sort_keys call)", "%s:%d" % (sk.rec["file"], sk.rec["line"]),
                  sample="every entry->return path passes an IndexMap::sort_keys call")
+    # every other place that builds a CurveDF { .. } is either the derived Clone (copies a sorted curve) or must itself sort first — in particular the loader:
+    # a derived Deserialize that fills the struct directly takes the node order from the document (JSON object order is not significant; a key-sorting
+    # re-serialiser orders timestamps as strings)
+    seen_loader = False
     for fn in facts.all_fns():
-        for e in hir.walk(fn["body"]):
-            if e.get("k") == "struct" and (e.get("ty") or "").startswith("curves::curve::CurveDF<"):
-                ok = fn["fn"].endswith("CurveDF::<T, U>::try_new") or "Clone" in fn["fn"] or "Deserialize" in fn["fn"] or "::_::" in fn["fn"]
-                ck.check(r4, "literal@" + fn["fn"][:80], ok, "CurveDF constructed outside try_new (nodes may be unsorted)", "%s:%s" % (fn["file"], e.get("ln")), sample="allowed constructor")
+        lits = [e for e in hir.walk(fn["body"]) if e.get("k") == "struct" and (e.get("ty") or "").startswith("curves::curve::CurveDF<")]
+        if not lits or fn["fn"].endswith("CurveDF::<T, U>::try_new"):
+            continue
+        if (fn.get("trait_item") or "").endswith("Clone::clone"):
+            ck.ok(r4, "literal@Clone", "derived Clone")
+            continue
+        c2 = P.cfgs.get(fn["fn"])
+        okd = sort_dominates(c2)[0] if c2 is not None else False
+        short_name = ("derived-Deserialize::" + fn["fn"].rsplit("::", 1)[-1]) if "Deserialize" in fn["fn"] else re.sub(r"<[^<>]*>", "", fn["fn"])[-70:]
+        seen_loader = seen_loader or okd
+        ck.check(r4, "literal@" + short_name, okd, "CurveDF { .. } is built here without sorting the node map first (a stored curve whose nodes are written in another "
+                 "order loads into a curve that interpolates between the wrong nodes)", "%s:%s" % (fn["file"], lits[0].get("ln")), sample="sort_keys dominates the struct literal")
+    de = [r_ for r_ in facts.all_fns() if (r_.get("trait_item") or "").endswith("Deserialize::deserialize") and (r_.get("self_ty") or "").startswith("curves::curve::CurveDF")]
+    ck.check(r4, "loader-sorts", bool(de) and seen_loader, "CurveDF is deserialisable but no sorting conversion builds it", sample="Deserialize goes through a conversion that sorts")
     # ---------------- R11.5 interval search: recurrence conformance
     r5 = ck.rule("R11.5", "index_left is the bisection recurrence: n = 1 aborts; n = 2 -> left count; otherwise split = (n-1) div 2, value <= list[split] -> search "
                           "list[..=split] with the same count, else search list[split..] with count + split (the n = 3 && value == list[split] shortcut, which "
